@@ -271,7 +271,8 @@ class AbsChild:
 
 
 _STDLIB_OK = {'contextlib', 'collections', 'typing', 're', 'ast', 'string', 'importlib',
-              'sys', 'types', 'itertools', 'functools', 'textwrap', 'keyword', 'builtins'}
+              'sys', 'types', 'itertools', 'functools', 'textwrap', 'keyword', 'builtins', 'operator',
+              'enum', 'dataclasses', 'abc', 'numbers', 'math', 'copy', 'warnings'}
 
 SAFE_BUILTINS = {k: getattr(_b, k) for k in (
     'len isinstance issubclass zip enumerate set frozenset list tuple str repr any all int hex '
@@ -581,6 +582,10 @@ class Interp:
         if T is ast.Expr:
             if isinstance(st.value, ast.Yield):
                 sent = yield (self.ev(st.value.value, env, m) if st.value.value else None)
+                return
+            if isinstance(st.value, ast.YieldFrom):
+                for item in self.iterate(self.ev(st.value.value, env, m)):
+                    yield item
                 return
             self.ev(st.value, env, m)
         elif T is ast.Assign:
